@@ -21,6 +21,7 @@ pub mod c16;
 pub mod recon;
 pub mod c17;
 pub mod c18;
+pub mod c20;
 
 pub fn dispatch(args: &Args) -> i32 {
     match args.prop.as_str() {
@@ -42,6 +43,7 @@ pub fn dispatch(args: &Args) -> i32 {
         "C16" => c16::run(args),
         "C17" => c17::run(args),
         "C18" => c18::run(args),
+        "C20" => c20::run(args),
         p => {
             eprintln!("agv: no check for property {p}");
             2
